@@ -252,6 +252,10 @@ func (e *Engine) neverAssigned(v *types.Var) bool {
 		return r
 	}
 	pkg := e.pkgs[v.Pkg().Path()]
+	if pkg == nil {
+		e.globalsRO[v] = true // a variable of a package outside the loaded set (library state): not ours to judge
+		return true
+	}
 	ro := true
 	for _, f := range pkg.Syntax {
 		ast.Inspect(f, func(n ast.Node) bool {
@@ -471,8 +475,123 @@ func (ec *evalCtx) evalFuncLit(x *ast.FuncLit) Value {
 	return &FuncV{Name: "closure", Id: Var(ec.e().fresher.name("closure"), SInt), Lit: x, Fc: ec.fc}
 }
 
+// callClosure executes the body of a function literal of the enclosing function at the call (captured variables are
+// the enclosing function's own variables, so the body runs in the caller's state). A closure variable that holds
+// different literals on different paths is called under the corresponding case split.
 func (ec *evalCtx) callClosure(fv *FuncV, call *ast.CallExpr, args []Value) Value {
-	panic(unsupported("call of closure value"))
+	if fv.AltC != nil {
+		base := ec.st
+		run := func(f *FuncV, cond *Term) (*State, Value) {
+			st := base.Clone()
+			st.Assume(cond)
+			sub := *ec
+			sub.st = st
+			var r Value
+			switch {
+			case f.AltC != nil || f.Lit != nil:
+				r = sub.callClosure(f, call, args)
+			default:
+				panic(unsupported("call of a function value that is a closure on one path and unknown on another"))
+			}
+			return sub.st, r
+		}
+		stA, rA := run(fv.AltA, fv.AltC)
+		stB, rB := run(fv.AltB, Not(fv.AltC))
+		ms := mergeStates(fv.AltC, stA, stB, base)
+		*ec.st = *ms
+		if rA == nil || rB == nil {
+			return nil
+		}
+		return mergeValue(fv.AltC, rA, rB)
+	}
+	if fv.Lit == nil {
+		panic(unsupported("call of closure value without a body"))
+	}
+	if ec.fc.depth > 8 {
+		panic(unsupported("closure call depth"))
+	}
+	e := ec.e()
+	lit := fv.Lit
+	pkg, info := ec.fc.pkg, ec.fc.info
+	sub := &FnCtx{e: e, pkg: pkg, info: info, decl: ec.fc.decl, body: lit.Body, c: nil, name: ec.fc.name + ">closure", firedWhere: map[string]bool{},
+		counters: ec.fc.counters, modified: map[types.Object]bool{}, depth: ec.fc.depth + 1}
+	sig, _ := info.TypeOf(lit).(*types.Signature)
+	sub.sig = sig
+	sub.index()
+	st := ec.st
+	savedNames := make(map[string]types.Object, len(st.names))
+	for k, v := range st.names {
+		savedNames[k] = v
+	}
+	i := 0
+	if lit.Type.Params != nil {
+		for _, fld := range lit.Type.Params.List {
+			for _, n := range fld.Names {
+				if obj := info.Defs[n]; obj != nil && i < len(args) {
+					st.Declare(obj, args[i])
+				}
+				i++
+			}
+		}
+	}
+	sub.results = namedResults(info, lit.Type)
+	for _, r := range sub.results {
+		if r != nil {
+			st.Declare(r, e.zeroValue(st, r.Type()))
+		}
+	}
+	outs := sub.execBlock(st, lit.Body.List)
+	var rets []Outcome
+	for _, o := range outs {
+		switch o.kind {
+		case oReturn:
+			rets = append(rets, o)
+		case oFall:
+			var rv []Value
+			for _, r := range sub.results {
+				if r != nil {
+					rv = append(rv, o.st.vars[r])
+				}
+			}
+			rets = append(rets, Outcome{kind: oReturn, st: o.st, rets: rv})
+		default:
+			panic(unsupported("closure: stray break/continue"))
+		}
+	}
+	if len(rets) == 0 {
+		ec.st.Assume(False)
+		return nil
+	}
+	merged := rets[len(rets)-1]
+	base := ec.st
+	nb := len(base.pc)
+	for k := len(rets) - 2; k >= 0; k-- {
+		o := rets[k]
+		cond := And(o.st.pc[nb:]...)
+		ms := mergeStates(cond, o.st, merged.st, base)
+		var mr []Value
+		for j := range o.rets {
+			mr = append(mr, mergeValue(cond, o.rets[j], merged.rets[j]))
+		}
+		merged = Outcome{kind: oReturn, st: ms, rets: mr}
+	}
+	*ec.st = *merged.st
+	ec.st.names = savedNames
+	// results converted to the declared result types (e.g. a concrete reader returned as io.Reader)
+	if sig != nil {
+		for j := range merged.rets {
+			if j < sig.Results().Len() && merged.rets[j] != nil {
+				merged.rets[j] = ec.convertTo(merged.rets[j], nil, sig.Results().At(j).Type())
+			}
+		}
+	}
+	switch len(merged.rets) {
+	case 0:
+		return nil
+	case 1:
+		return merged.rets[0]
+	}
+	return &TupleV{Vs: merged.rets}
 }
 
 // renderCV returns the pointer to the per-render context value (templ.contextValue).
@@ -534,4 +653,31 @@ func simpleLang(r *Re) bool {
 		}
 	}
 	return false
+}
+
+// mapEverWritten: is there an assignment through an index expression rooted at the package-level map v?
+func (e *Engine) mapEverWritten(v *types.Var) bool {
+	pkg := e.pkgs[v.Pkg().Path()]
+	if pkg == nil {
+		return true
+	}
+	found := false
+	for _, f := range pkg.Syntax {
+		ast.Inspect(f, func(n ast.Node) bool {
+			if s, ok := n.(*ast.AssignStmt); ok {
+				for _, l := range s.Lhs {
+					if ix, ok := l.(*ast.IndexExpr); ok && rootIdentObj(pkg.TypesInfo, ix.X) == v {
+						found = true
+					}
+				}
+			}
+			if c, ok := n.(*ast.CallExpr); ok {
+				if id, ok := c.Fun.(*ast.Ident); ok && id.Name == "delete" && len(c.Args) > 0 && rootIdentObj(pkg.TypesInfo, c.Args[0]) == v {
+					found = true
+				}
+			}
+			return !found
+		})
+	}
+	return found
 }
